@@ -66,6 +66,21 @@ def host_raise_type(*args):
     raise TypeError("host raises")
 
 
+def host_raise_type_bare(*args):
+    CALLS.append(("raise", args))
+    raise TypeError
+
+
+def host_raise_value_bare(*args):
+    CALLS.append(("raise", args))
+    raise ValueError()
+
+
+def host_raise_value_args(*args):
+    CALLS.append(("raise", args))
+    raise ValueError(7, None, ("x",))
+
+
 def size(*args):
     """shadows the built-in size()"""
     CALLS.append(("size", args))
@@ -337,7 +352,9 @@ def _receiver_harness(runner):
     return Harness(id=f"C14/receivers@{runner}", vars={"b": B}, pre=[B >= -LIM, B <= LIM], run=run, witness=witness, max_paths=10)
 
 
-ERR_FUNCS = {"returns-error": "host_err", "raises-ValueError": "host_raise_value", "raises-TypeError": "host_raise_type"}
+ERR_FUNCS = {"returns-error": "host_err", "raises-ValueError": "host_raise_value", "raises-TypeError": "host_raise_type",
+             # exceptions raised without a message / with arguments that are not text
+             "raises-bare-TypeError": "host_raise_type_bare", "raises-bare-ValueError": "host_raise_value_bare", "raises-ValueError-nontext-args": "host_raise_value_args"}
 ERR_CTX = [("f(a) > 0 || true", True), ("true || f(a) > 0", True), ("f(a) > 0 && false", False), ("false && f(a) > 0", False),
            ("true ? 7 : f(a)", 7), ("f(a)", "error"), ("f(a) > 0 || false", "error"), ("a.f() > 0 || true", True),
            # method and global form with further arguments of several kinds (int, double, list, string)
